@@ -468,4 +468,118 @@ theorem readTrack_write (cs : Charset) (hcs : cs ≠ .utf8) (tr : List TEvent) (
         have := writeEvents_length cs fixed none body hb
         simp only [length_append]; omega)
 
+/-- `fix_end_of_track` is idempotent: its output is already in normal form -/
+theorem fixEot_idem (tr : List TEvent) : ∀ (acc : Int) (fixed : List TEvent),
+    (∀ e ∈ tr, ∃ n : Int, e.time = .int n) →
+    fixEotEvents (.int acc) tr = .ok fixed → fixEotEvents (.int 0) fixed = .ok fixed := by
+  induction tr with
+  | nil =>
+    intro acc fixed _ h
+    simp only [fixEotEvents, Except.ok.injEq] at h; subst h
+    simp [fixEotEvents, eotEvent, FEv.isEot, pyAdd, bind, Except.bind]
+  | cons x xs ih =>
+    intro acc fixed ht h
+    obtain ⟨n, hn⟩ := ht x (by simp)
+    have hrest := fun e he => ht e (mem_cons_of_mem _ he)
+    simp only [fixEotEvents] at h
+    by_cases hx : x.ev.isEot = true
+    · rw [if_pos hx, hn] at h
+      simp only [pyAdd, bind, Except.bind] at h
+      exact ih _ fixed hrest h
+    · rw [if_neg hx] at h
+      by_cases hta : pyTruthy (.int acc) = true
+      · rw [if_pos hta, hn] at h
+        simp only [pyAdd, bind, Except.bind] at h
+        cases hr : fixEotEvents (.int 0) xs with
+        | error e => rw [hr] at h; cases h
+        | ok r =>
+          rw [hr] at h; simp only [pure, Except.pure, Except.ok.injEq] at h; subst h
+          have := ih 0 r hrest hr
+          simp only [fixEotEvents, hx, Bool.false_eq_true, if_false, pyTruthy, bne_self_eq_false, this, bind, Except.bind,
+            pure, Except.pure]
+      · rw [if_neg hta] at h
+        cases hr : fixEotEvents (.int 0) xs with
+        | error e => rw [hr] at h; simp [bind, Except.bind] at h
+        | ok r =>
+          rw [hr] at h; simp only [bind, Except.bind, pure, Except.pure, Except.ok.injEq] at h; subst h
+          have := ih 0 r hrest hr
+          simp only [fixEotEvents, hx, Bool.false_eq_true, if_false, pyTruthy, bne_self_eq_false, this, bind, Except.bind,
+            pure, Except.pure]
+
+/-- what the reader returns for a written track: its events after `fix_end_of_track` -/
+def normTrack (tr : List TEvent) : List LEvent :=
+  match fixEotEvents (.int 0) tr with
+  | .ok fixed => fixed.map TEvent.toL
+  | .error _ => []
+
+theorem readTracks_write (cs : Charset) (hcs : cs ≠ .utf8) (trs : List (List TEvent)) :
+    ∀ (bytes : List Nat), (∀ tr ∈ trs, ∀ e ∈ tr, StorableT cs e) →
+    (∀ tr ∈ trs, ∀ b, writeTrack cs tr = .ok b → b.length < 4294967296) →
+    writeTracks cs trs = .ok bytes →
+    readTracks cs false trs.length bytes = .ok (trs.map normTrack) := by
+  induction trs with
+  | nil => intro _ _ _ _; rfl
+  | cons t ts ih =>
+    intro bytes hst hfit hw
+    simp only [writeTracks, bind, Except.bind] at hw
+    cases ha : writeTrack cs t with
+    | error e => rw [ha] at hw; cases hw
+    | ok a =>
+      rw [ha] at hw; simp only at hw
+      cases hb : writeTracks cs ts with
+      | error e => rw [hb] at hw; cases hw
+      | ok b =>
+        rw [hb] at hw; simp only [pure, Except.pure, Except.ok.injEq] at hw; subst hw
+        obtain ⟨fixed, hfix, hrd⟩ := readTrack_write cs hcs t (hst t (by simp)) a b ha (hfit t (by simp) a ha)
+        have hrest := ih b (fun tr h => hst tr (mem_cons_of_mem _ h)) (fun tr h => hfit tr (mem_cons_of_mem _ h)) hb
+        simp only [length_cons, readTracks, bind, Except.bind, hrd, hrest, pure, Except.pure, map_cons, normTrack, hfix]
+
+/-- the loaded track as a track value again -/
+def normT (tr : List TEvent) : List TEvent := (normTrack tr).map LEvent.toT
+
+theorem toT_toL (cs : Charset) (e : TEvent) (h : StorableT cs e) : LEvent.toT (TEvent.toL e) = e := by
+  obtain ⟨_, n, hn⟩ := h
+  cases e with
+  | mk ev t => simp only at hn; subst hn; simp [TEvent.toL, LEvent.toT]
+
+theorem normT_eq (cs : Charset) (hcs : cs ≠ .utf8) (tr : List TEvent) (hst : ∀ e ∈ tr, StorableT cs e) :
+    ∃ fixed, fixEotEvents (.int 0) tr = .ok fixed ∧ normT tr = fixed ∧ (∀ e ∈ fixed, StorableT cs e) := by
+  obtain ⟨fixed, hfix, hfs⟩ := fixEot_storable cs hcs tr 0 hst
+  have hfix0 : fixEotEvents (.int 0) tr = .ok fixed := by simpa using hfix
+  refine ⟨fixed, hfix0, ?_, hfs⟩
+  simp only [normT, normTrack, hfix0, map_map]
+  conv => rhs; rw [← map_id fixed]
+  apply map_congr_left
+  intro e he
+  exact toT_toL cs e (hfs e he)
+
+/-- writing the normal form of a track writes the same chunk -/
+theorem writeTrack_normT (cs : Charset) (hcs : cs ≠ .utf8) (tr : List TEvent) (hst : ∀ e ∈ tr, StorableT cs e) :
+    writeTrack cs (normT tr) = writeTrack cs tr ∧ (∀ e ∈ normT tr, StorableT cs e) := by
+  obtain ⟨fixed, hfix, hn, hfs⟩ := normT_eq cs hcs tr hst
+  rw [hn]
+  refine ⟨?_, hfs⟩
+  have hall : tr.all timeOk = true := by
+    apply all_eq_true.mpr; intro e he
+    obtain ⟨_, n, hn⟩ := hst e he
+    simp [timeOk, hn]
+  have hall2 : fixed.all timeOk = true := by
+    apply all_eq_true.mpr; intro e he
+    obtain ⟨_, n, hn⟩ := hfs e he
+    simp [timeOk, hn]
+  have hid := fixEot_idem tr 0 fixed (fun e he => by obtain ⟨_, n, hn⟩ := hst e he; exact ⟨n, hn⟩) hfix
+  simp only [writeTrack, hall, hall2, hfix, hid]
+
+theorem writeTracks_normT (cs : Charset) (hcs : cs ≠ .utf8) (trs : List (List TEvent))
+    (hst : ∀ tr ∈ trs, ∀ e ∈ tr, StorableT cs e) :
+    writeTracks cs (trs.map normT) = writeTracks cs trs := by
+  induction trs with
+  | nil => rfl
+  | cons t ts ih =>
+    simp only [map_cons, writeTracks, (writeTrack_normT cs hcs t (hst t (by simp))).1,
+      ih (fun tr h => hst tr (mem_cons_of_mem _ h))]
+
+theorem i16be_length (v : Int) (bs : List Nat) (h : i16be v = .ok bs) : bs.length = 2 := by
+  obtain ⟨a, b, rfl, _⟩ := s16_i16be v bs h; rfl
+
 end Mido
